@@ -244,6 +244,8 @@ def _store_case():
         "eps_us": st.one_of(st.sampled_from([-3 * US, -1_500_000, 1_500_000, 3 * US]), st.integers(-20 * US, 20 * US)),
         "phase_us": st.integers(0, 999_999),
         "restore": st.booleans(),
+        # host time zone (the bucket's naive timestamp is host-local wall-clock time; the key's expiry is an absolute instant)
+        "tz": st.sampled_from([None, None, *vclock.zones(40)]),
     })
 
 
@@ -297,7 +299,7 @@ async def _store(loop, case, out: Outcome):
 def run_store(case: dict) -> Outcome:
     out = Outcome()
     try:
-        vclock.run(lambda loop: _store(loop, case, out), max_steps=100_000)
+        vclock.run(lambda loop: _store(loop, case, out), max_steps=100_000, tz=case.get("tz"))
     except (vclock.StepLimit, vclock.Deadlock) as e:
         out.inconclusive = True
         out.info["watchdog"] = str(e)
